@@ -549,6 +549,15 @@ pub fn c03(ctx: &Ctx) -> PropResult {
     for src in scope_family() {
         cases.push(run_case(src, "scope-isolation"));
     }
+    for src in crate::props6::arg_count_family() {
+        cases.push(run_case(src, "argument-count"));
+    }
+    for src in crate::props6::unbraced_body_family() {
+        cases.push(run_case(src, "unbraced-body"));
+    }
+    for src in crate::props6::returned_list_identity_family() {
+        cases.push(run_case(src, "returned-list-identity"));
+    }
     for src in effectful_header_family() {
         cases.push(run_case(src, "call-from-loop-header"));
     }
@@ -570,7 +579,7 @@ pub fn c03(ctx: &Ctx) -> PropResult {
     let stats = run_cases(&ctx.driver, cases, &newline_twin_oracle, &no_known, ctx.threads);
     PropResult {
         stats,
-        rule: "random programs with 1-3 procedures (0-3 parameters, bodies with nested IF / all three loops / RETURN valued or bare / recursion), calls nested in expressions, argument counts off by one, undefined names; RETURN (valued, bare, with expression, absent) at each of 3 positions inside 6 nesting wrappers followed by probes; fixed scenarios for recursion, mutual recursion, scope isolation in both directions, by-value / by-reference, argument order; non-trivial = ended normally or with a runtime error".into(),
+        rule: "random programs with 1-3 procedures (0-3 parameters, bodies with nested IF / all three loops / RETURN valued or bare / recursion), calls nested in expressions, argument counts off by one, undefined names; RETURN (valued, bare, with expression, absent) at each of 3 positions inside 6 nesting wrappers followed by probes; fixed scenarios for recursion, mutual recursion, scope isolation in both directions, by-value / by-reference, argument order; non-trivial = ended normally or with a runtime error; every parameter count in 0..3, 254..256 against argument counts 0..4, 253..257, 511, 512; bodies of one statement without braces (and their braced twins) touching names of the caller; eleven ways to get a list back from a procedure x six operations through the result / the original".into(),
         exhaustive: false,
         notes: vec![],
     }
@@ -587,12 +596,16 @@ pub fn c04(ctx: &Ctx) -> PropResult {
     let n = if ctx.quick() { 5_000 } else { 120_000 };
     for _ in 0..n {
         let len = 1 + rng.below(if ctx.quick() { 12 } else { 30 });
-        let mut src = format!("INF <- {}\nNAN <- INF - INF\nPROCEDURE mut(p) {{\n APPEND(p, \"m\")\n p <- [\"fresh\"]\n APPEND(p, \"n\")\n}}\nPROCEDURE show() {{\n}}\na <- [1, 2]\nb <- [3]\nc <- \"héllo\"\nd <- [9]\n", inf_literal());
+        let mut src = format!("INF <- {}\nNAN <- INF - INF\nPROCEDURE mut(p) {{\n APPEND(p, \"m\")\n p <- [\"fresh\"]\n APPEND(p, \"n\")\n}}\nPROCEDURE show() {{\n}}\nPROCEDURE same(p) {{\n RETURN p\n}}\nPROCEDURE pick(rows, i) {{\n RETURN rows[i]\n}}\na <- [1, 2]\nb <- [3]\nc <- \"héllo\"\nd <- [9]\n", inf_literal());
         for _ in 0..len {
             let v = vars[rng.below(2)];
             let w = vars[rng.below(3)];
             let i = idx[rng.below(idx.len())].replace("(a)", &format!("({v})"));
-            let stmt = match rng.below(25) {
+            let stmt = match rng.below(29) {
+                25 => format!("d <- same({w})"),
+                26 => format!("{v} <- pick([{w}, d], {})", 1 + rng.below(2)),
+                27 => format!("APPEND(same({v}), {})", rng.below(9)),
+                28 => format!("d <- pick([0, {v}], 2)"),
                 21 => format!("{v} <- {w} <- [{}, {}]", rng.below(9), rng.below(9)),
                 22 => format!("DISPLAY({v} <- [{}] + [{}])", rng.below(9), rng.below(9)),
                 23 => format!("d <- ({v} <- [{}, 0])", rng.below(9)),
@@ -628,6 +641,17 @@ pub fn c04(ctx: &Ctx) -> PropResult {
     for src in scope_family() {
         cases.push(run_case(src, "scope-isolation"));
     }
+    // a list handed back by a procedure is the list itself
+    for src in crate::props6::returned_list_identity_family() {
+        cases.push(run_case(src, "returned-list-identity"));
+    }
+    // FOR EACH while the body changes the list: at the current, an earlier and a later position
+    for src in crate::props3::for_each_mutation_family() {
+        cases.push(run_case(src, "for-each-mutation"));
+    }
+    for src in crate::props6::for_each_later_position_family() {
+        cases.push(run_case(src, "for-each-later-position"));
+    }
     // x <- y with x already a list and y another list with the same printed contents: x's cell takes y's elements (the
     // inner lists of y, its own zeros), whatever x held
     for (xs, ys) in [("[[1], [2]]", "[[1], [2]]"), ("[0, 5]", "[-0, 5]"), ("[[[]]]", "[[[]]]"), ("[\"a\", [1]]", "[\"a\", [1]]"), ("[1, 2]", "[1, 2]")] {
@@ -661,7 +685,7 @@ pub fn c04(ctx: &Ctx) -> PropResult {
     let stats = run_cases(&ctx.driver, cases, &no_panic_oracle, &no_known, ctx.threads);
     PropResult {
         stats,
-        rule: "random histories (length <= 12, thorough 30) over variables a, b (lists), c (string), d (alias): literal, assignment between variables, index read / write with 14 index values (-1, 0, 0.5, 1, 1.9, 2, LENGTH, LENGTH+0.5, LENGTH+1, LENGTH+2, NaN, inf, string, NULL), APPEND, INSERT, REMOVE, LENGTH, +, passing to a procedure that mutates then reassigns its parameter, nesting in a list, aliasing; all variables displayed after every step; plus every index value on a list and a non-ASCII string for read / write / INSERT / REMOVE; non-trivial = ended normally or with a runtime error".into(),
+        rule: "random histories (length <= 12, thorough 30) over variables a, b (lists), c (string), d (alias): literal, assignment between variables, index read / write with 14 index values (-1, 0, 0.5, 1, 1.9, 2, LENGTH, LENGTH+0.5, LENGTH+1, LENGTH+2, NaN, inf, string, NULL), APPEND, INSERT, REMOVE, LENGTH, +, passing to a procedure that mutates then reassigns its parameter, nesting in a list, aliasing; all variables displayed after every step; plus every index value on a list and a non-ASCII string for read / write / INSERT / REMOVE; non-trivial = ended normally or with a runtime error; lists handed back by procedures (the parameter, an element, a local, through a second procedure, from a loop, a copy) changed through the result and through the original; FOR EACH while the body changes the list at the current, an earlier or a later position (index write, INSERT, REMOVE, APPEND, by name / alias, every ending)".into(),
         exhaustive: false,
         notes: vec![],
     }
@@ -706,6 +730,28 @@ pub fn c05(ctx: &Ctx) -> PropResult {
                     trees.push(PExpr::Assign(t1.into(), Box::new(PExpr::Assign(t2.into(), Box::new(PExpr::Assign(t3.into(), l(1)))))));
                 }
                 trees.push(PExpr::Assign(t1.into(), Box::new(PExpr::Bin("OR", Box::new(PExpr::Assign(t2.into(), l(0))), l(1)))));
+            }
+        }
+        // chains of postfix operators: an indexing (or a call) as the left operand of an indexing needs no parentheses;
+        // valuations exist for which the inner step fails while the outer index has an effect of its own
+        {
+            let nst = || Box::new(PExpr::Leaf("nst".into()));
+            let ii = |a: Box<PExpr>, b: Box<PExpr>| PExpr::Index(Box::new(PExpr::Index(nst(), a)), b);
+            trees.push(ii(l(0), l(1)));
+            trees.push(PExpr::Index(Box::new(ii(l(0), l(1))), l(2)));
+            trees.push(PExpr::Un("-", Box::new(ii(l(0), l(1)))));
+            trees.push(PExpr::Un("NOT", Box::new(ii(l(0), l(1)))));
+            trees.push(PExpr::Assign("w0".into(), Box::new(ii(l(0), l(1)))));
+            trees.push(PExpr::Assign("nst[P(1, v0)][P(2, v1)]".into(), l(2)));
+            trees.push(PExpr::Assign("nst[P(1, v0)][P(2, v1)][P(3, v2)]".into(), Box::new(PExpr::Leaf("P(4, v3)".into()))));
+            trees.push(PExpr::Index(Box::new(PExpr::Call("P".into(), vec![*l(0), *nst()])), l(1)));
+            trees.push(PExpr::Index(Box::new(PExpr::Index(Box::new(PExpr::Call("P".into(), vec![*l(0), *nst()])), l(1))), l(2)));
+            trees.push(PExpr::Call("P".into(), vec![ii(l(0), l(1)), ii(l(1), l(2))]));
+            for op in P_BINOPS {
+                trees.push(PExpr::Bin(op, Box::new(ii(l(0), l(1))), l(2)));
+                trees.push(PExpr::Bin(op, l(0), Box::new(ii(l(1), l(2)))));
+                trees.push(ii(l(0), Box::new(PExpr::Bin(op, l(1), l(2)))));
+                trees.push(ii(Box::new(PExpr::Bin(op, l(0), l(1))), l(2)));
             }
         }
         // a + b * c and friends with every pair of arithmetic operators (rounding-sensitive valuations exist)
@@ -825,7 +871,7 @@ pub fn c05(ctx: &Ctx) -> PropResult {
     let stats = run_cases(&ctx.driver, cases, &oracle, &no_known, ctx.threads);
     PropResult {
         stats,
-        rule: format!("{} expression trees: every ordered pair of the 13 binary operators in both shapes, every binary operator with unary -, NOT, assignment and indexing at each operand (thorough: every triple in all five shapes), random trees with 2-8 operators incl. calls, assignment and indexing; each rendered with only the required parentheses and fully parenthesised, run under {} valuations (distinct primes, zeros for errors, mixed kinds) with a probe procedure at every leaf so that order, once-ness and short-circuiting show in the output; implementation-only oracle: both renderings behave identically (output, end class, error kind); the minimal rendering is also compared with the model", trees.len(), per_tree),
+        rule: format!("{} expression trees: every ordered pair of the 13 binary operators in both shapes, every binary operator with unary -, NOT, assignment and indexing at each operand (thorough: every triple in all five shapes), random trees with 2-8 operators incl. calls, assignment and indexing; each rendered with only the required parentheses and fully parenthesised, run under {} valuations (distinct primes, zeros for errors, mixed kinds) with a probe procedure at every leaf so that order, once-ness and short-circuiting show in the output; implementation-only oracle: both renderings behave identically (output, end class, error kind); the minimal rendering is also compared with the model; chains of postfix operators (indexing of an indexing or of a call result, two and three deep, under every binary and unary operator, as assignment target) with valuations failing at the first, second or third step", trees.len(), per_tree),
         exhaustive: false,
         notes: vec![],
     }
